@@ -388,7 +388,7 @@ Fixpoint range_of_elem (fuel : nat) (e : option elem) : res range :=
       | Some (Size (El e')) => bind (range_of_elem fuel' (Some e')) (fun r => Ok (set_size r))
       | Some (Size (SetOp b o r)) =>
           bind (fold fuel' b o r None true) (fun fe => bind (range_of_elem fuel' fe) (fun v => Ok (mark_ext (trailing_marker r) (set_size v))))
-      | Some Contained => Ok range_default      (* the subtype's own constraints: none PER-visible in this model *)
+      | Some Contained => Ok range_default_unsigned   (* per_visible_range_constraints (false, []) of the contained type: it is not an INTEGER in this model (the harness builds it from BOOLEAN), none of its constraints PER-visible *)
       | Some NotPV => Panic                     (* unreachable!() *)
       end
   end.
